@@ -537,6 +537,11 @@ func (c *Ctx) Run(tier string) {
 
 // Replay re-runs one case.
 func (c *Ctx) Replay(wit string) error {
+	var lk LCase
+	if err := json.Unmarshal([]byte(wit), &lk); err == nil && lk.Listing {
+		c.CheckListing(&lk)
+		return nil
+	}
 	var k Case
 	if err := json.Unmarshal([]byte(wit), &k); err != nil {
 		return err
